@@ -264,6 +264,11 @@ bool ProcessExecutor::handleRead(int rpipe, unsigned int &result, const std::str
     unsigned int len = 0;
     bytes_to_read = sizeof(len);
     bytes_read = read(rpipe, &len, bytes_to_read);
+    if (bytes_read == 0 || (bytes_read > 0 && static_cast<std::size_t>(bytes_read) != bytes_to_read)) {
+        // the worker died inside a record: handle it like a worker that died between records
+        ++result;
+        return false;
+    }
     if (bytes_read <= 0) {
         const int err = errno;
         std::cerr << "#### ThreadExecutor::handleRead(" << filename << ") error (len) for type " << int(type) << ": " << std::strerror(err) << std::endl;
@@ -280,6 +285,11 @@ bool ProcessExecutor::handleRead(int rpipe, unsigned int &result, const std::str
         bytes_to_read = len;
         do {
             bytes_read = read(rpipe, data_start, bytes_to_read);
+            if (bytes_read == 0) {
+                // the worker died inside a record: handle it like a worker that died between records
+                ++result;
+                return false;
+            }
             if (bytes_read <= 0) {
                 const int err = errno;
                 std::cerr << "#### ThreadExecutor::handleRead(" << filename << ") error (buf) for type" << int(type) << ": " << std::strerror(err) << std::endl;
